@@ -4,6 +4,7 @@ package c01
 import (
 	"encoding/json"
 	"fmt"
+	"strings"
 	"testing"
 
 	"github.com/getkin/kin-openapi/openapi3"
@@ -151,6 +152,35 @@ func check(c Case) (o h.Outcome) {
 			short(multiErr), ref.Valid, ref.FailKeyword, ref.FailPath, c.Schema, c.Value, c.Rep)
 		return
 	}
+	// the same value as a request body and as a response body: read-only members are not a request's to
+	// send (nor required of it), write-only members not a response's
+	if strings.Contains(c.Schema, "readOnly") || strings.Contains(c.Schema, "writeOnly") {
+		for _, dir := range []string{"request", "response"} {
+			dm := refschema.Mode{Defs: defs, AsRequest: dir == "request", AsResponse: dir == "response"}
+			dref := refschema.ValidTrace(raw, v, dm)
+			if dref.Grey {
+				continue
+			}
+			opt := openapi3.VisitAsRequest()
+			if dir == "response" {
+				opt = openapi3.VisitAsResponse()
+			}
+			var derr error
+			if !o.Guarded("VisitJSON-as-"+dir, func() { derr = ks.VisitJSON(jv.Clone(kv), opt) }) {
+				return
+			}
+			o.Class("as-%s:valid=%v", dir, dref.Valid)
+			if (derr == nil) != dref.Valid {
+				side := "accepts-invalid"
+				detail := dref.FailKeyword
+				if derr != nil {
+					side, detail = "rejects-valid", errField(derr)
+				}
+				o.Fail(fmt.Sprintf("as-%s:%s:%s", dir, side, detail), "VisitJSON as %s err=%v but reference evaluator says valid=%v (failing keyword %q at %q)\nschema=%s\nvalue=%s", dir, short(derr), dref.Valid, dref.FailKeyword, dref.FailPath, c.Schema, c.Value)
+				return
+			}
+		}
+	}
 	if kinMatch != kinOK {
 		o.Fail("ismatching-differs", "IsMatching=%v but VisitJSON err=%v\nschema=%s\nvalue=%s", kinMatch, short(kinErr), c.Schema, c.Value)
 	}
@@ -255,6 +285,10 @@ func instances() []inst {
 	add("uniqueItems", `{"uniqueItems":true}`)
 	add("required", `{"required":["a"]}`)
 	add("required", `{"required":["a","b"]}`)
+	// members a request (a response) does not carry, required or not: they count for the directional legs
+	add("properties", `{"properties":{"a":{"readOnly":true}},"required":["a"]}`)
+	add("properties", `{"properties":{"a":{"writeOnly":true}},"required":["a"]}`)
+	add("properties", `{"properties":{"a":{"readOnly":true},"b":{"writeOnly":true}}}`)
 	add("additionalProperties", `{"additionalProperties":false}`)
 	add("additionalProperties", `{"additionalProperties":true}`)
 	add("minProperties", `{"minProperties":1}`)
